@@ -14,7 +14,7 @@ use crate::run::{finish, preflight, Ctx, Report, Tally, Tier};
 const PLACEHOLDER: &str = "5167504c414345484f4c4445525f5349475f5f5f5f5f5f5f5f5f5f5f5f5f5f5f";
 const BAD_SIG: &str = "00000000000000000000000000000000ffffffffffffffffffffffffffffffff";
 
-pub const INPUTS: [&str; 21] = [
+pub const INPUTS: [&str; 25] = [
     "authorization-header",
     "credential-in-header",
     "signedheaders-in-header",
@@ -38,6 +38,13 @@ pub const INPUTS: [&str; 21] = [
     "qb-signedheaders",
     "qb-signature",
     "qb-token",
+    // the selected input is the one of the carrier that authenticates: the same-named input of the *other* carrier, left in
+    // the request with another value (a token / date parameter on a header-signed request — in the URL or in a folded body —,
+    // a token / date header on a presigned URL), is never the one that is used
+    "token-header-with-query-remnant",
+    "date-header-with-query-remnant",
+    "q-token-with-header-remnant",
+    "q-date-with-header-remnant",
 ];
 
 /// A name that starts with U+0001 is written with needless escapes (`%58-Amz%2DDate`): the same parameter, spelled differently.
@@ -442,6 +449,100 @@ fn build(input: &str, copies: usize, k: usize, r: &mut Rng, c: &Ctxt) -> Option<
             }
             documented = 0;
         }
+        "token-header-with-query-remnant" | "date-header-with-query-remnant" => {
+            let tok = input == "token-header-with-query-remnant";
+            headers.push((b"x-amz-date".to_vec(), t_good.compact().into_bytes()));
+            if r.coin() {
+                signed.push("x-amz-date".into());
+            }
+            if tok {
+                // one or two token headers: the first is the one
+                for _ in 0..1 + r.usize_below(2) {
+                    headers.push((b"x-amz-security-token".to_vec(), gen_token(r).into_bytes()));
+                }
+                if r.coin() {
+                    signed.push("x-amz-security-token".into());
+                }
+            }
+            signed.sort();
+            eff_signed = signed.clone();
+            // the remnants: copies − 1 parameters of the other carrier's name, in the URL or (folding on) in a form body
+            let name = if tok {
+                "X-Amz-Security-Token"
+            } else {
+                "X-Amz-Date"
+            };
+            let in_body = r.chance(1, 3);
+            let mut form: Vec<(String, String)> = Vec::new();
+            for i in 1..copies {
+                let v = if tok {
+                    gen_token(r)
+                } else if r.chance(1, 4) {
+                    "junk".to_string()
+                } else {
+                    t_other.plus_s(i as i64).compact()
+                };
+                if in_body {
+                    form.push((name.to_string(), v));
+                } else {
+                    url.push((name.to_string(), v));
+                }
+            }
+            if in_body {
+                cfg.fold = true;
+                form.push(("b".into(), "2".into()));
+                body = plain_query(&form);
+                headers.push((b"content-type".to_vec(), b"application/x-www-form-urlencoded".to_vec()));
+            }
+            url.push(("z".into(), "last".into()));
+            stable_interleave(r, &mut url);
+            headers.push((b"authorization".to_vec(), auth(&good_cred, &signed, PLACEHOLDER).into_bytes()));
+            documented = 0;
+            if k != 0 {
+                return None;
+            }
+        }
+        "q-token-with-header-remnant" | "q-date-with-header-remnant" => {
+            let tok = input == "q-token-with-header-remnant";
+            // the remnants: copies − 1 headers of the other carrier's name, signed or not
+            let hname: &[u8] = if tok {
+                b"x-amz-security-token"
+            } else if r.coin() {
+                b"x-amz-date"
+            } else {
+                b"date"
+            };
+            for i in 1..copies {
+                let v = if tok {
+                    gen_token(r)
+                } else if r.chance(1, 4) {
+                    "junk".to_string()
+                } else {
+                    t_other.plus_s(i as i64).compact()
+                };
+                let pos = r.usize_below(headers.len() + 1);
+                headers.insert(pos, (hname.to_vec(), v.into_bytes()));
+            }
+            if r.coin() {
+                signed.push(String::from_utf8_lossy(hname).to_string());
+                signed.sort();
+            }
+            eff_signed = signed.clone();
+            url.push(("X-Amz-Algorithm".into(), "AWS4-HMAC-SHA256".into()));
+            url.push(("X-Amz-Credential".into(), good_cred.clone()));
+            url.push(("X-Amz-Date".into(), t_good.compact()));
+            url.push(("X-Amz-SignedHeaders".into(), signed.join(";")));
+            if tok {
+                url.push(("X-Amz-Security-Token".into(), gen_token(r)));
+            }
+            url.push(("X-Amz-Signature".into(), PLACEHOLDER.into()));
+            url.push(("z".into(), "last".into()));
+            stable_interleave(r, &mut url);
+            documented = 0;
+            if k != 0 {
+                return None;
+            }
+        }
         "both-carriers" => {
             // four shapes: header + query algorithm parameter in the URL / in a folded body; valid signature on either side
             headers.push((b"x-amz-date".to_vec(), t_good.compact().into_bytes()));
@@ -582,6 +683,7 @@ fn shard(seed: u64, shard: u64, n: u64) -> Tally {
         }
         // the reference model's own selection rules must reproduce the documented choice: oracle self-check
         let expect_accept = k == documented || matches!(input, "token-header" | "q-token" | "qb-token");
+        let token_input = matches!(input, "token-header" | "q-token" | "qb-token" | "token-header-with-query-remnant" | "q-token-with-header-remnant");
         match (&j.analysis.verdict, expect_accept) {
             (Verdict::Accept, true) | (Verdict::Reject { .. }, false) => {}
             (Verdict::DontCare { why, .. }, _) => {
@@ -613,7 +715,7 @@ fn shard(seed: u64, shard: u64, n: u64) -> Tally {
                 if input == "both-carriers" && j.analysis.stage() == Stage::Carrier {
                     t.count("both_carriers_refused");
                 }
-                if rec.calls() == 1 && matches!(input, "token-header" | "q-token" | "qb-token") {
+                if rec.calls() == 1 && token_input {
                     t.count("token_selection_checked_in_provider_log");
                 }
                 t.nontrivial(case.hash());
@@ -646,6 +748,7 @@ pub fn run(tier: Tier) -> i32 {
         let shapes: Vec<(usize, usize)> = match input {
             "both-carriers" => (0..4).map(|k| (k, 4)).collect(),
             "token-header" | "q-token" | "qb-token" => vec![(0, 2), (0, 3)],
+            x if x.ends_with("-remnant") => vec![(0, 2), (0, 3)],
             "date-alongside-x-amz-date" => vec![(0, 2), (1, 2), (0, 3), (1, 3)],
             _ => vec![(0, 2), (1, 2), (0, 3), (1, 3), (2, 3)],
         };
@@ -661,7 +764,7 @@ pub fn run(tier: Tier) -> i32 {
     ctx.gate("token selection verified in the provider log", tally.get("token_selection_checked_in_provider_log"), tier.n(1000, 10_000));
     let rep = Report {
         level: "exploration",
-        rule: "For each duplicable authentication input (Authorization header; Credential / SignedHeaders / Signature inside it; X-Amz-Date header; Date next to X-Amz-Date; security-token header; each X-Amz-* query parameter) 2–3 copies with differing values in every order, exactly one copy being the one the signature is valid for (the request is signed *as received*, duplicates included, by the reference signer under the assumption that this copy is the effective one); both carriers present in four shapes (algorithm parameter in the URL / in a folded body, valid signature on either side). Oracle: the documented selection rules in the reference model + the provider event log (access key, token). Accept iff the valid copy is the documented one; both carriers always refused. Distinct = distinct decided cases by hash.".into(),
+        rule: "For each duplicable authentication input (Authorization header; Credential / SignedHeaders / Signature inside it; X-Amz-Date header; Date next to X-Amz-Date; security-token header; each X-Amz-* query parameter; a token or date input of the carrier that authenticates next to 1–2 same-named inputs of the other carrier — parameter in the URL or in a folded body next to headers, headers next to presigned parameters — with other values) 2–3 copies with differing values in every order, exactly one copy being the one the signature is valid for (the request is signed *as received*, duplicates included, by the reference signer under the assumption that this copy is the effective one); both carriers present in four shapes (algorithm parameter in the URL / in a folded body, valid signature on either side). Oracle: the documented selection rules in the reference model + the provider event log (access key, token). Accept iff the valid copy is the documented one; both carriers always refused. Distinct = distinct decided cases by hash.".into(),
         assumptions: vec!["an X-Amz-* parameter occurring once in the URL and once in a folded body is executed but not judged (the property ranks occurrences within one place only)".into()],
         extra: J::obj().set("calibrated_vectors", J::i(pre.unwrap_or(0) as i64)),
     };
